@@ -97,12 +97,14 @@ def predicate_text(fn, ctx):
                     valnode = vals[0]
                     continue
             break
-        # Comparable(x) is transparent for the predicate (the ordering is decided by C04)
-        if isinstance(valnode, ast.Call) and norm(valnode.func) == 'Comparable' and len(valnode.args) == 1:
-            valnode = valnode.args[0]
-        valname = norm(valnode)
         op = call.args[3]
         opn = norm(op)
+        # Comparable(x) is transparent for an ORDERING predicate (the ordering is decided by C04); for ==, !=, in, is it
+        # is not: Comparable.__eq__ makes a list equal to a tuple and loses the identity shortcut
+        if isinstance(valnode, ast.Call) and norm(valnode.func) == 'Comparable' and len(valnode.args) == 1 and \
+                opn in ('operator.lt', 'operator.le', 'operator.gt', 'operator.ge'):
+            valnode = valnode.args[0]
+        valname = norm(valnode)
         if opn.startswith('operator.') and opn[9:] in OPERATOR_FORMS:
             return OPERATOR_FORMS[opn[9:]].format(a='v', b=valname), call
         if opn == 'isinstance':
@@ -337,6 +339,8 @@ def run(ctx):
                          'depend on an earlier call (e.g. a program compiled for the same pattern with other flags is reused)' % _g, _n)
     if not _nm:
         rep.held('R13.10', ('petl.transform.selects', '*'), 'no module-level state is written', '', None)
+    rep.rule('R13.13', 'every pass of a selection resolves the field against the header it reads: the select views keep no state that an iterator writes (C01 R1.3 imported for petl.transform.selects / regex)')
+    ctx.attempt(r1313, ctx, rep)
     rep.rule('R13.12', 'the reference values of a selector (value, minv, maxv, n ...) reach the predicate as the caller gave them: they are not re-bound before the predicate reads them')
     ctx.attempt(r1312, ctx, rep)
     from .common import check_selector_truth as _seltruth
@@ -771,8 +775,10 @@ def r1312(ctx, rep):
             for y in tg:
                 if y.id in refs:
                     v = getattr(x, 'value', None)
-                    # Comparable(x) is transparent for the predicate (the ordering is decided under C04)
-                    if isinstance(x, ast.Assign) and isinstance(v, ast.Call) and isinstance(v.func, ast.Name) and \
+                    # Comparable(x) is transparent for an ordering predicate (the ordering is decided under C04) -- not for
+                    # ==, !=, in, is: Comparable.__eq__ makes a list equal to a tuple
+                    ordering = any(o in SELECTORS[name] for o in ('<', '>'))
+                    if ordering and isinstance(x, ast.Assign) and isinstance(v, ast.Call) and isinstance(v.func, ast.Name) and \
                             v.func.id == 'Comparable' and len(v.args) == 1 and norm(v.args[0]) == y.id:
                         continue
                     bad.append((x, y.id))
@@ -782,3 +788,27 @@ def r1312(ctx, rep):
         if not bad:
             rep.held('R13.12', fn, 'reference values %s not re-bound' % refs, '', fn.node)
     ctx.floor('selectors_with_reference_values', n, 12)
+
+
+# ------------------------------------------------------------------------- R13.13
+def r1313(ctx, rep):
+    from . import c01
+    from ..report import Report
+    sub = Report('C01', ctx.tier, ctx.root)
+    saved = ctx.report
+    ctx.report = sub
+    n = 0
+    try:
+        found = set()
+        for v in ctx.views.real_views():
+            if v.cls.module.name in ('petl.transform.selects', 'petl.transform.regex'):
+                n += 1
+                c01.r13(ctx, sub, v, found)
+    finally:
+        ctx.report = saved
+    for o in sub.obligations:
+        rep.add('R13.13', (o.module, o.qualname), o.construct, o.status, o.message, o.lineno, o.detail)
+    if not sub.obligations:
+        rep.held('R13.13', ('petl.transform.selects', '*'), 'no attribute of a select view is written by its iterators', '%d views' % n, None)
+    if n < 4:
+        raise AnalysisError('anchor vanished: only %d select views' % n)
